@@ -194,7 +194,7 @@ EscapeStr(s) == <<"\"">> \o Cat([i \in 1..Len(s) |-> EscChar(s[i])]) \o <<"\"">>
 \* floats: what Display prints for the symbolic names (repaired, C09a: a finite float whose
 \* Display text has no '.', is given ".0"); "<?>" = not predicted (hundreds of digits)
 \* ---------------------------------------------------------------------------------------------
-FloatNames == <<"1.0", "-0.0", "0.1", "1e16", "123456789.125", "-2.5", "1e300", "5e-324">>
+FloatNames == <<"1.0", "-0.0", "0.1", "1e16", "123456789.125", "-2.5", "1e300", "5e-324", "inf", "-inf", "NaN">>
 FloatText(name) ==
   CASE name = "1.0" -> <<"1", ".", "0">>
     [] name = "-0.0" -> <<"-", "0", ".", "0">>
@@ -202,6 +202,9 @@ FloatText(name) ==
     [] name = "1e16" -> <<"1", "0", "0", "0", "0", "0", "0", "0", "0", "0", "0", "0", "0", "0", "0", "0", "0", ".", "0">>
     [] name = "123456789.125" -> <<"1", "2", "3", "4", "5", "6", "7", "8", "9", ".", "1", "2", "5">>
     [] name = "-2.5" -> <<"-", "2", ".", "5">>
+    [] name = "inf" -> <<".", "i", "n", "f">>            \* non-finite floats are written in their core-schema spelling
+    [] name = "-inf" -> <<"-", ".", "i", "n", "f">>
+    [] name = "NaN" -> <<".", "n", "a", "n">>
     [] OTHER -> <<"<?>">>
 
 \* ---------------------------------------------------------------------------------------------
